@@ -148,9 +148,9 @@ def handle : P String := do
     let ty ← tok; let op ← tok
     let M ← treeP
     let t ← tailP
-    -- TupleMatrix: the transposed members do not compile (FEAT defect, see checks/props/c01.py F4); a TupleMatrix
-    -- with a single row still offers the 2-argument apply_transposed
-    if ty.startsWith "tuple" && (op == "axpyT" || (op == "applyT" && !ty.startsWith "tuple1")) then pure "NOT-OFFERED" else
+    let _ := ty
+    -- the overloads with flat DenseVector operands (op suffix F) act on the same pod arrays as the Tuple/PowerVector ones
+    let op := if op.endsWith "F" then (op.dropRight 1) else op
     let tr := op == "applyT" || op == "axpyT"
     let nOut := if tr then M.cols else M.rows
     match op with
